@@ -109,6 +109,13 @@ class Top( Component ):
     s.stage = VStage( {nbits} )
     s.stage.in_ //= s.in_
     s.out //= s.stage.out
+    if {nbits2}:
+      # a second instance of the same placeholder class with another parameter value
+      s.in2 = InPort( {nbits2} )
+      s.out2 = OutPort( {nbits2} )
+      s.stage2 = VStage( {nbits2} )
+      s.stage2.in_ //= s.in2
+      s.out2 //= s.stage2.out
 '''
 
 
@@ -126,6 +133,10 @@ def judge_a(case):
           k = [i for i, (a, b) in enumerate(zip(runs[0][2], r["src"])) if a != b][0]
           return ("nondeterministic:verilog", f"source design {k} ({batch['sources'][k].get('what', '')}): {runs[0][0]} -> "
                                               f"{runs[0][2][k][0][:16]}, subprocess PYTHONHASHSEED={hs} -> {r['src'][k][0][:16]}")
+        for k, x in enumerate(r["src"]):
+          if x[0].startswith("dup:"):
+            return ("alias:placeholder_modules_share_a_name", f"source design {k} ({batch['sources'][k].get('what', '')}): module name(s) "
+                                                              f"{x[0][4:]} defined more than once with different bodies")
         if any(x[0].startswith("rejected") for x in r["src"]):
           raise AssertionError(f"harness: placeholder design rejected: {r['src']}")
       runs.append((f"subprocess PYTHONHASHSEED={hs}", r["ir"], r["src"]))
@@ -393,8 +404,10 @@ def cases_a(draw, n, light=False):
     # a black-box Verilog placeholder that needs several library files
     names = draw(st.lists(st.sampled_from(["vc_regs", "vc_muxes", "vc_arith", "vc_gates", "vc_misc", "vc_queues", "vc_mem", "vc_trace"]),
                           min_size=2, max_size=6, unique=True))
-    sources.append({"src": PLACEHOLDER_SRC.format(libs=names, nbits=draw(st.sampled_from([1, 8, 32]))), "placeholder": True,
-                    "what": f"placeholder with v_libs {names}"})
+    nb = draw(st.sampled_from([1, 8, 32]))
+    nb2 = draw(st.sampled_from([0, 0, 4, 16, nb]))
+    sources.append({"src": PLACEHOLDER_SRC.format(libs=names, nbits=nb, nbits2=nb2), "placeholder": True,
+                    "what": f"placeholder with v_libs {names}, instances with nbits {nb}" + (f" and {nb2}" if nb2 else "")})
   return {"kind": "A", "designs": designs, "sources": sources, "hashseed": draw(st.integers(2, 2 ** 31 - 1)), "light": light}
 
 
